@@ -43,6 +43,8 @@ def marked_values(hist):
                 out.append(x["n"])
             elif x.get("k") == "flt":
                 out.append(x["n"])
+            if x.get("k") == "vext":
+                pass  # (its constants are walked below like any other value record)
             if x.get("m") in ("limit", "offset"):
                 out.append(str(x["n"]))
             for v in x.values():
@@ -101,8 +103,11 @@ def run(tier: str) -> int:
     from pypika_tortoise.terms import Parameterizer
 
     rep = core.Report("C04", tier)
-    r = tlc.run("MC_C04Gen", f"CONSTANTS\nMaxCalls = {2 if tier == 'quick' else 3}\nSrcTab <- G_SrcTab\nINIT Init\nNEXT Next\nINVARIANT Emit\n",
-                workers=16, heap="6g", extra_files={"MC_C04Gen.tla": gen("MC_C04")}, timeout=2400)
+    execb.Env(core.query_classes()["generic"])
+    crit = {"Bitand", "Like", "JsonGet", "Tuple", "Not", "NotIn", "IsinSubquery", "XorChain"}
+    vext = "G_VExt == {" + ", ".join('<<"%s", %d, %s>>' % (k, a, "TRUE" if k in crit else "FALSE") for k, (a, _) in sorted(execb._vext().items())) + "}\n"
+    r = tlc.run("MC_C04Gen", f"CONSTANTS\nMaxCalls = {2 if tier == 'quick' else 3}\nSrcTab <- G_SrcTab\nVExt <- G_VExt\nINIT Init\nNEXT Next\nINVARIANT Emit\n",
+                workers=16, heap="6g", extra_files={"MC_C04Gen.tla": gen("MC_C04", vext)}, timeout=2400)
     rep.add_tlc(r)
     if r.violation or not r.ok:
         raise core.MachineryError(f"MC_C04: {r.violation}\n{r.raw_tail[-1500:]}")
